@@ -3,7 +3,7 @@ import json
 
 from .. import core
 
-FAMS = ["lr", "lr2", "arith", "arithnest", "mutual", "hidden", "brackets", "brackets2", "seplist"]
+FAMS = ["lr", "lr2", "arith", "arithnest", "prec5", "mutual", "hidden", "brackets", "brackets2", "seplist"]
 
 
 def cfg(sizes, run_machine):
@@ -26,6 +26,8 @@ def run(r):
     if not big.ok:
         raise core.Inconclusive("C17MC (inputs) failed: %r" % big)
     cases = sorted(m.prints + big.prints, key=lambda c: (c["fam"], c["n"]))
+    # (five left-recursive levels under 256 nested parentheses need a goroutine stack beyond Go's 1 GB limit)
+    cases = [c for c in cases if not (c["fam"].startswith("prec5") and c["n"] > 300)]
     # one cold process per family and variant: the measured grammar is the first thing the library does in its process
     from concurrent.futures import ThreadPoolExecutor
     groups = {}
